@@ -1,6 +1,6 @@
 (* C05/Props.v -- pinned property theorems; nothing but statements closed by `exact`. *)
 From NV.Common Require Import Base.
-From NV.C05 Require Import Model Proofs.
+From NV.C05 Require Import Model Proofs Inst.
 From Coq Require Import Permutation.
 Open Scope N_scope.
 
